@@ -68,6 +68,18 @@ def base_spec(skeleton):
         s["jobs"]["job3"] = {"server": "srv"}
         s["steps"]["step"]["jobs"] = ["job", "job2", "job3"]
         return s
+    if skeleton == "T3b":
+        # the same job called from steps of two different journeys used by different usage patterns
+        s = M.T3(2)
+        s["steps"]["step2"]["jobs"] = ["job2", "job"]
+        s["journeys"]["uj2"]["steps"] = ["step2"]
+        return s
+    if skeleton == "T7d":
+        # one storage fed by a storing job and a deleting job (and a third storing job)
+        s = M.T7(2, offset_hours=0)
+        s["jobs"]["job3"] = {"server": "srv"}
+        s["steps"]["step"]["jobs"] = ["job", "job3"]
+        return s
     if skeleton == "T2c":
         # two usage patterns in different countries sharing one network and one journey
         s = M.T2(2)
@@ -82,7 +94,8 @@ def base_spec(skeleton):
 def h_config(ctx, skeleton, kind, arg, uuid_offset=0, set_budget=0):
     from sx import stubs
     spec = base_spec(skeleton)
-    env = M.Env(ctx, symbolic=_sym(spec, steps=(kind == "step_jobs")))
+    values = {"jobdel.data_stored": -60, "st.base_storage_need": 5} if skeleton == "T7d" else {}
+    env = M.Env(ctx, symbolic={k: v for k, v in _sym(spec, steps=(kind == "step_jobs")).items() if k not in values}, values=values)
     if ctx.symbolic:
         stubs.reset_uuid(0)
     ref = M.build(spec, env)
@@ -122,7 +135,7 @@ from harness import model as M, values as V
 from harness.c19 import base_spec
 class C: symbolic = False
 out = {}
-for sk in ("T3", "T5", "T2d", "T9", "T2c"):
+for sk in ("T3", "T5", "T2d", "T9", "T2c", "T3b"):
     objs = M.build(base_spec(sk), M.Env(C(), {}))
     for name, o in objs.items():
         if hasattr(o, "calculated_attributes"):
@@ -176,7 +189,7 @@ def plan(tier, seed):
         p.append(("config", dict(skeleton="T2d", kind="step_jobs", arg=list(perm))))
     for perm in itertools.permutations(range(2)):
         p.append(("config", dict(skeleton="T5", kind="step_jobs", arg=list(perm))))
-    for sk in ("T3", "T5", "T9", "T2d", "T2c"):
+    for sk in ("T3", "T5", "T9", "T2d", "T2c", "T3b", "T7d"):
         p.append(("config", dict(skeleton=sk, kind="creation", arg="reversed")))
         p.append(("config", dict(skeleton=sk, kind="creation", arg=seed + 1)))
         for off in (1000, 2000, 31337, 77777, 123456):
